@@ -200,6 +200,28 @@ def check(P: Project, R: Report) -> None:
                 why = "delegated from model_post_init" if ok else f"{hname} is called by the fallback only; Pydantic v2 never calls it, so the invariant it enforces holds under one backend only"
             if raises:
                 R.ob("R1", f"{m.name}.{hname} is enforced by both backends", ok, f"{rel}:{f.node.lineno}", why, sample=f"R1 {m.name}.{hname}: {why}")
+            if raises and not deco and hname not in both and ok:
+                # the fallback runs this hook on the object as validated and then model_post_init; Pydantic runs model_post_init
+                # alone.  The two agree only if model_post_init hands the *same* object to the hook: whatever it stores into
+                # the instance first (a normalisation, a de-duplication) is seen by the check under Pydantic and not under the fallback
+                mpi = m.methods["model_post_init"]
+                dele = [c for c in walk_local(mpi.node) if isinstance(c, ast.Call) and call_name(c) == f"self.{hname}"]
+                first = min(c.lineno for c in dele)
+                stores = []
+                for x in walk_local(mpi.node):
+                    if getattr(x, "lineno", first) >= first:
+                        continue
+                    if isinstance(x, (ast.Assign, ast.AugAssign, ast.AnnAssign)):
+                        for t_ in (x.targets if isinstance(x, ast.Assign) else [x.target]):
+                            if isinstance(t_, (ast.Attribute, ast.Subscript)) and "self" in {n_.id for n_ in ast.walk(t_) if isinstance(n_, ast.Name)}:
+                                stores.append(ast.unparse(x)[:60])
+                    elif isinstance(x, ast.Call) and call_name(x) in ("setattr", "object.__setattr__") and x.args and ast.unparse(x.args[0]) == "self":
+                        stores.append(ast.unparse(x)[:60])
+                    elif isinstance(x, ast.Call) and isinstance(x.func, ast.Attribute) and x.func.attr in ("update", "append", "extend", "clear", "pop", "remove", "sort", "insert") and ast.unparse(x.func.value).startswith("self."):
+                        stores.append(ast.unparse(x)[:60])
+                R.ob("R1", f"{m.name}.{hname} sees the same object under both backends", not stores, f"{rel}:{mpi.node.lineno}",
+                     f"model_post_init changes the object before it delegates (`{stores[0] if stores else ''}`): the fallback has already run {hname} on the object as it came in (and rejects it), Pydantic runs it only after the change (and accepts) — the invariant is enforced on different values by the two backends",
+                     sample=f"R1 {m.name}: model_post_init hands the object to {hname} unchanged")
         # R2 / R4
         for fi in m.own_fields.values():
             if fi.constraints:
